@@ -208,7 +208,7 @@ pub fn c08_sweep(cx: &SweepCtx, quick: bool, threads: usize) {
     if !quick {
         lens.extend([65536, 1 << 20]);
     }
-    let counts: Vec<usize> = if quick { vec![1, 2, 3, 8, 64] } else { (1..=64).collect() };
+    let counts: Vec<usize> = if quick { vec![1, 2, 3, 8, 64] } else { vec![1, 2, 3, 4, 5, 7, 8, 9, 16, 17, 31, 32, 33, 63, 64] };
     // besides the seven basic storage states: capacities far above the length (a clone must
     // share the buffer however empty it is) and handles much shorter than the shared text
     let mut storages: Vec<Storage> = STORAGES.to_vec();
